@@ -4,6 +4,8 @@ import "verif/harness/internal/hx"
 
 func main() {
 	hx.Main(map[string]func(*hx.Ctx) error{
-		"events": driveEvents,
+		"events":  driveEvents,
+		"faults":  driveFaults,
+		"updates": driveUpdates,
 	})
 }
